@@ -1,4 +1,5 @@
 import JP.Lemmas.ParseWs
+import JP.Lemmas.SelfCR
 import JP.Props.C15ensure
 import JP.Props.C06bytes
 import JP.Props.C11
@@ -20,10 +21,10 @@ merge-family lemma files and the engine lemma files cannot be imported into one 
   (`parser_ws`: it does not change what the reference parser returns).  Two qualifications, both
   faithful to the Go code: `MergePatch` returns a scalar patch *verbatim*, surrounding white space
   included (`mergePatch_ws_patch`); `Apply` looks for the opening bracket of an array document with
-  `isArray`, which steps over space, tab and LF but not CR, so leading CRs are only irrelevant as
-  long as no operation addresses the root through an empty reference token
-  (`apply_ws` asks for CR-free leading white space; `apply_accepts_wellformed` and
-  `apply_ws_noops` need no such restriction);
+  `isArray`, which steps over space, tab and LF but not CR — but the flag this sets (`selfCR`) is
+  never consulted since `get("")` was repaired (an empty reference token is an ordinary member
+  name: `JP/Lemmas/SelfCR.lean`), so `apply_ws` holds for ALL white space (`apply_ws_nonarray`,
+  `apply_ws_noops` are special cases kept for their callers);
 * `…_accepts…`: well-formed texts of the right shape are accepted.
 
 One exception is part of the model because it is part of the library: the EMPTY document (which is
@@ -95,16 +96,32 @@ theorem goIsArray_append_ws {ws : Bytes} (x : Bytes) (h : WsOnly ws) : goIsArray
   | cons c cs ih =>
     simp only [List.cons_append, goIsArray, ih]
 
-/-- white space around the document is irrelevant to `Apply` (leading white space free of CR: see
-the header) -/
+/-- **white space around the document is irrelevant to `Apply`** — any white space, CR included,
+any document, any patch -/
 theorem apply_ws (o : Impl.Opts) (ind ws₁ doc ws₂ : Bytes) (ops : List Impl.Op)
-    (h₁ : WsOnly ws₁) (h₂ : WsOnly ws₂) (hcr : (13 : UInt8) ∉ ws₁) (hne : doc ≠ []) :
+    (h₁ : WsOnly ws₁) (h₂ : WsOnly ws₂) (hne : doc ≠ []) :
     Impl.applyBytes o ind (ws₁ ++ doc ++ ws₂) ops = Impl.applyBytes o ind doc ops := by
   have hne' : ws₁ ++ doc ++ ws₂ ≠ [] := by
     cases ws₁ <;> cases doc <;> simp_all
   unfold applyBytes
   simp only [hne, hne', if_false, C16.valid_ws ws₁ doc ws₂ h₁ h₂, parser_ws ws₁ doc ws₂ h₁ h₂]
-  rw [List.append_assoc, goIsArray_ws_append _ h₁ hcr, goIsArray_append_ws _ h₂]
+  cases hv : Scanner.valid doc with
+  | false => rfl
+  | true =>
+    cases hp : parseCst doc with
+    | none => rfl
+    | some c =>
+      simp only [Bool.not_true, Bool.false_eq_true, if_false]
+      cases hd : decodeRoot c with
+      | panic => rfl
+      | err e => rfl
+      | ok con => exact applyTail_selfCR o ind con (.raw c) _ _ ops
+
+/-- the earlier form of `apply_ws` (leading white space free of CR), now a special case -/
+theorem apply_ws_noCR (o : Impl.Opts) (ind ws₁ doc ws₂ : Bytes) (ops : List Impl.Op)
+    (h₁ : WsOnly ws₁) (h₂ : WsOnly ws₂) (_hcr : (13 : UInt8) ∉ ws₁) (hne : doc ≠ []) :
+    Impl.applyBytes o ind (ws₁ ++ doc ++ ws₂) ops = Impl.applyBytes o ind doc ops :=
+  apply_ws o ind ws₁ doc ws₂ ops h₁ h₂ hne
 
 /-- the same for any white space when the document is not an array -/
 theorem apply_ws_nonarray (o : Impl.Opts) (ind ws₁ doc ws₂ : Bytes) (ops : List Impl.Op)
@@ -396,13 +413,38 @@ example : parseCst (ascii "{\"a\":") = none ∧ ascii "{\"a\":" ≠ [] := by dec
 example : Impl.applyBytes {} [] (ascii "{\"a\":") [] = .err .invalid :=
   apply_rejects_malformed {} [] _ [] (by decide +kernel) (by decide)
 example : (13 : UInt8) ∉ exWsNoCR := by decide
-/-- the CR restriction of `apply_ws` is needed: `test` of the root through the empty token -/
+/-- no CR restriction any more: with the repaired `get` an empty reference token is an ordinary
+member name, so the pointer `//0` does not reach the root's private node and a leading CR (which
+`isArray` does not step over) is irrelevant.  What used to tell `[1]` and `\r[1]` apart (`test //0`
+succeeded on the first and failed on the second) now fails on both alike: an array has no
+member `""` -/
 example :
     (match Impl.decodePatch (ascii "[{\"op\":\"test\",\"path\":\"//0\",\"value\":1}]") with
      | .ok ops =>
        (match Impl.applyBytes {} [] (ascii "[1]") ops, Impl.applyBytes {} [] (ascii "\r[1]") ops with
-        | .ok _, .err _ => true
+        | .err e₁, .err e₂ => e₁ == .missing && e₂ == .missing
         | _, _ => false)
+     | _ => false) = true := by decide +kernel
+/-- … `//0` addresses element 0 of the member named `""` (RFC 6901), CR or not -/
+example :
+    (match Impl.decodePatch (ascii "[{\"op\":\"test\",\"path\":\"//0\",\"value\":1}]") with
+     | .ok ops =>
+       (match Impl.applyBytes {} [] (ascii "{\"\":[1]}") ops,
+          Impl.applyBytes {} [] (ascii "\r{\"\":[1]}") ops with
+        | .ok o₁, .ok o₂ => o₁ == ascii "{\"\":[1]}" && o₂ == ascii "{\"\":[1]}"
+        | _, _ => false)
+     | _ => false) = true := by decide +kernel
+/-- … and an array document behind white space with CRs is patched like the bare one
+(`apply_ws` with `exWs`, which contains a CR) -/
+example (ops : List Impl.Op) :
+    Impl.applyBytes {} [] (exWs ++ ascii "[{\"\":1}]" ++ exWs) ops = Impl.applyBytes {} [] (ascii "[{\"\":1}]") ops :=
+  apply_ws {} [] _ _ _ ops exWs_ws exWs_ws (by decide)
+example :
+    (match Impl.decodePatch (ascii "[{\"op\":\"replace\",\"path\":\"/0/\",\"value\":2}]") with
+     | .ok ops =>
+       (match Impl.applyBytes {} [] (ascii "\r[{\"\":1}]") ops with
+        | .ok o₁ => o₁ == ascii "[{\"\":2}]"
+        | _ => false)
      | _ => false) = true := by decide +kernel
 example : (match parseCst (ascii "[{\"k\":1}]") with
     | some c => (c.isObj || c.isArr) && c.valueOf.noDup | none => false) = true := by decide +kernel
@@ -419,6 +461,7 @@ all of the following: [propext, Classical.choice, Quot.sound]
 #print axioms JP.C16.apply_rejects_malformed
 #print axioms JP.C16.apply_empty_document
 #print axioms JP.C16.apply_ws
+#print axioms JP.C16.apply_ws_noCR
 #print axioms JP.C16.apply_ws_nonarray
 #print axioms JP.C16.apply_ws_noops
 #print axioms JP.C16.apply_accepts_wellformed
